@@ -125,12 +125,15 @@ struct World {
     migrated_from: Option<&'static str>,
     /// a legal native denom (token-factory style) that merely CONTAINS the text "cw20:<addr>"
     odd_denom: String,
+    /// legal native denoms that are letter-case variants of the internal cw20 encoding: "CW20:<addr>", "Cw20:<addr>"
+    case_denoms: Vec<String>,
 }
 
 impl World {
     fn tokens(&self) -> Vec<Token> {
         let mut v: Vec<Token> = NATIVE.iter().map(|d| Token::Native(d.to_string())).collect();
         v.push(Token::Native(self.odd_denom.clone()));
+        v.extend(self.case_denoms.iter().map(|d| Token::Native(d.clone())));
         v.extend(self.cw20s.iter().map(|a| Token::Cw20(a.to_string())));
         v
     }
@@ -185,6 +188,31 @@ impl World {
         s.default_timeout = cfg.default_timeout;
         let adm: Res<cw_controllers::AdminResponse> = self.c.query(&self.ics, &QueryMsg::Admin {});
         s.admin = adm.ok().and_then(|a| a.admin);
+        if prop == "C18" {
+            // the point query and the governance field of Config tell the same story as the listing / Admin
+            for t in &self.cw20s {
+                let r: Res<cw20_ics20::msg::AllowedResponse> = self.c.query(&self.ics, &QueryMsg::Allowed { contract: t.to_string() });
+                let Res::Ok(r) = r else {
+                    h.violate("C18/query/allowed-query-failed", format!("Allowed{{{t}}}"));
+                    return None;
+                };
+                let listed = s.allow.get(t.as_str()).cloned();
+                h.out.oracle_checks += 1;
+                let agree = match listed {
+                    Some(g) => r.is_allowed && r.gas_limit == g,
+                    None => !r.is_allowed && r.gas_limit.is_none(),
+                };
+                if !agree {
+                    h.violate("C18/query/allowed-differs-from-list-allowed", format!("token {t}: Allowed says ({}, {:?}), ListAllowed says {listed:?}", r.is_allowed, r.gas_limit));
+                    return None;
+                }
+            }
+            h.out.oracle_checks += 1;
+            if cfg.gov_contract != s.admin.clone().unwrap_or_default() {
+                h.violate("C18/query/config-governance-differs-from-admin", format!("Config.gov_contract {:?}, Admin {:?}", cfg.gov_contract, s.admin));
+                return None;
+            }
+        }
         s.packets = self.c.packet_count();
         Some(s)
     }
@@ -234,11 +262,15 @@ impl Ics {
         let bals: Vec<(String, u128)> = users.iter().map(|u| (u.clone(), 1u128 << 80)).collect();
         let cw20s = vec![c.new_cw20(false, &bals, None), c.new_cw20(true, &bals, None), c.new_cw20(false, &bals, None)];
         let odd_denom = format!("factory/{}/cw20:{}", &users[0][..20], cw20s[0]);
+        let case_denoms = vec![format!("CW20:{}", cw20s[0]), format!("Cw20:{}", cw20s[2])];
         for u in &users {
             for d in NATIVE {
                 c.fund(u, 1u128 << 80, d);
             }
             c.fund(u, 1u128 << 80, &odd_denom);
+            for d in &case_denoms {
+                c.fund(u, 1u128 << 80, d);
+            }
             for t in &cw20s {
                 c.fund(u, 1u128 << 40, &format!("cw20:{t}"));
             }
@@ -317,6 +349,7 @@ impl Ics {
             next_seq_in: 1,
             migrated_from: None,
             odd_denom,
+            case_denoms,
         })
     }
 
@@ -360,7 +393,8 @@ impl Ics {
         match k {
             0 => {
                 let denom = match rng.below(20) {
-                    0..=3 => w.odd_denom.clone(),
+                    0..=2 => w.odd_denom.clone(),
+                    3 => rng.pick_cloned(&w.case_denoms),
                     // a native coin whose denom is the internal encoding of a cw20 token
                     4 => format!("cw20:{}", w.cw20s[rng.below_usize(3)]),
                     _ => rng.pick(&NATIVE).to_string(),
@@ -995,8 +1029,12 @@ impl Ics {
         let version = if v1 { *h.rng.pick(&["0.11.1", "0.12.0-alpha1"]) } else { *h.rng.pick(&["0.12.0", "0.13.0", "0.12.1"]) };
         let r = w.c.sudo(&ics, &ShimMsg::MakeV2 { version: version.to_string(), inflight: list });
         if !r.is_ok() {
-            h.out.inconclusive = Some(format!("could not synthesise the v2 layout: {}", r.err_text()));
-            return false;
+            // the counterparty already redeemed tokens that are still in flight: such a history cannot have
+            // happened under the old accounting (in-flight sends were not booked). Nothing was changed; go on
+            // without an upgrade.
+            h.out.count("histories_not_expressible_in_the_v2_layout");
+            h.note(format!("v2 layout not synthesisable ({}), no migration in this history", r.err_text()));
+            return true;
         }
         if v1 {
             let r = w.c.sudo(&ics, &ShimMsg::MakeV1 { version: version.to_string() });
@@ -1033,6 +1071,14 @@ impl Ics {
         let r = w.c.migrate(&admin, &ics, &MigrateMsg { default_gas_limit: default_gas }, code);
         h.out.evaluations += 1;
         h.note(format!("migrate(default_gas_limit={default_gas:?}) => {} {}", r.class(), r.err_text()));
+        if w.channels.len() > 1 {
+            if !r.is_ok() {
+                // holdings cannot be attributed to channels: refusing is the safe answer; the history ends here
+                h.out.count("migrations_refused_with_several_channels");
+                return false;
+            }
+            h.out.count("migrations_accepted_with_several_channels");
+        }
         if !r.is_ok() {
             h.violate(&format!("{prop}/migrate/supported-upgrade-path-failed"), format!("migrate from {version} failed: {}", r.err_text()));
             return false;
@@ -1223,6 +1269,29 @@ impl Ics {
                 );
                 true
             }
+            // two channels, one of them holding the denomination only through a packet still in flight, then an
+            // upgrade from a v2-layout release: holdings cannot be attributed to channels (the migration refuses);
+            // were it accepted, channel-1 must still not pay out more than was escrowed on it
+            ("C11", 2) | ("C12", 12) => {
+                let natc = |c: &str, amount: u128| Op::TransferNative { channel: c.into(), denom: "uatom".into(), amount, extra_coin: false, timeout: None, memo: None };
+                self.play_on(
+                    h,
+                    (vec![(0, None)], None),
+                    vec![
+                        Act::Do(0, natc("channel-1", 100)),
+                        Act::AckOk,
+                        Act::Do(1, natc("channel-2", 50)),
+                        Act::Adv,
+                        Act::Legacy { v1: false, default_gas: None },
+                        Act::Relay(Op::ReturnVoucher { channel: "channel-1".into(), denom: "uatom".into(), amount: 150, receiver: "@user:2".into() }),
+                        Act::Relay(Op::ReturnVoucher { channel: "channel-1".into(), denom: "uatom".into(), amount: 101, receiver: "@user:2".into() }),
+                        Act::AckOk,
+                        Act::Relay(Op::ReturnVoucher { channel: "channel-2".into(), denom: "uatom".into(), amount: 50, receiver: "@user:2".into() }),
+                    ],
+                    Some(true),
+                );
+                true
+            }
             // failing payouts and refunds
             ("C12", 6) | ("C11", 0) => {
                 self.play(
@@ -1270,6 +1339,8 @@ impl Monitor for Ics {
     fn mandatory(&self) -> Vec<&'static str> {
         match self.prop {
             "C11" => vec![
+                "migrations_refused_with_several_channels",
+                "migrations_from_v2",
                 "native_transfers_with_cw20_prefixed_denom_rejected",
                 "directed_scenarios_completed",
                 "transfers_accepted",
@@ -1337,8 +1408,12 @@ impl Monitor for Ics {
         if self.directed(h) {
             return;
         }
-        let upgrade = matches!(self.prop, "C12" | "C18") && h.idx % 3 == 0;
-        let Some(mut w) = self.setup(h, upgrade) else {
+        let upgrade = matches!(self.prop, "C11" | "C12" | "C18") && h.idx % 3 == 0;
+        // every fourth upgrade world has whatever number of channels the generator picks: the v2 step of
+        // the migration cannot attribute holdings to channels there (it refuses; if it ever accepts, the
+        // per-channel rules keep judging the history)
+        let several = matches!(self.prop, "C11" | "C12") && h.idx % 12 == 9;
+        let Some(mut w) = self.setup(h, upgrade && !several) else {
             return;
         };
         let Some(mut pre) = w.snap(h, self.prop) else {
